@@ -15,6 +15,10 @@ CONSTANTS Design = "copy"
           Reconfig = 0
           EarlyFlush = FALSE
           WithDefaults = TRUE
-INVARIANTS ExactlyOnceInOrder CountMatches Decodable ZipIff DefaultsInForce HandedOverIsImmutable
+          Bad = FALSE
+          CtxKinds = {"none"}
+          IdleSlack = 0
+          MinPeriod = 1
+INVARIANTS ExactlyOnceInOrder CountMatches Decodable ZipIff DefaultsInForce HandedOverIsImmutable IdleWaitBounded
 PROPERTIES FlushWhenDue
 CHECK_DEADLOCK FALSE
